@@ -7,7 +7,7 @@
 //!           BumpAllocator over that block
 //! With `in_block` (C14) the inline flavours live in a block too and both can be relocated.
 
-use crate::block::{Holder, InBlock, Own};
+use crate::block::{Holder, InBlock, Own, OwnInline, fingerprint};
 use crate::tok::Tok;
 use iceoryx2_bb_container::flatmap::{FixedSizeFlatMap, FlatMap, FlatMapError, RelocatableFlatMap};
 use iceoryx2_bb_container::queue::{FixedSizeQueue, Queue, RelocatableQueue};
@@ -59,6 +59,10 @@ pub trait Real {
     /// API contradicts itself (len vs is_empty, peek vs get(0), dead element visible, ...)
     fn observe(&mut self) -> Result<Vec<i64>, String>;
     fn relocate(&mut self) -> bool;
+    /// hash of the complete memory image of the object, if the driver owns all of it
+    fn fingerprint(&mut self) -> Option<u64> {
+        None
+    }
 }
 
 macro_rules! check {
@@ -134,6 +138,9 @@ impl<V: Vector<Tok>, H: Holder<V>> Real for VecReal<V, H> {
     }
     fn relocate(&mut self) -> bool {
         self.h.relocate()
+    }
+    fn fingerprint(&mut self) -> Option<u64> {
+        fingerprint(&[self.h.bytes()])
     }
 }
 
@@ -244,6 +251,9 @@ impl<QT: QueueLike<Tok>, QC: QueueLike<u32> + QueueGet, HT: Holder<QT>, HC: Hold
         let b = self.c.relocate();
         a && b
     }
+    fn fingerprint(&mut self) -> Option<u64> {
+        fingerprint(&[self.t.bytes(), self.c.bytes()])
+    }
 }
 
 // ------------------------------------------------------------------------------------------------
@@ -343,6 +353,9 @@ impl<S: SlotLike, H: Holder<S>> Real for SlotReal<S, H> {
     fn relocate(&mut self) -> bool {
         self.h.relocate()
     }
+    fn fingerprint(&mut self) -> Option<u64> {
+        fingerprint(&[self.h.bytes()])
+    }
 }
 
 // ------------------------------------------------------------------------------------------------
@@ -438,6 +451,9 @@ impl<F: FlatLike, H: Holder<F>> Real for FlatReal<F, H> {
     fn relocate(&mut self) -> bool {
         self.h.relocate()
     }
+    fn fingerprint(&mut self) -> Option<u64> {
+        fingerprint(&[self.h.bytes()])
+    }
 }
 
 // ------------------------------------------------------------------------------------------------
@@ -524,6 +540,9 @@ impl<S: IoxString, H: Holder<S>> Real for StrReal<S, H> {
     fn relocate(&mut self) -> bool {
         self.h.relocate()
     }
+    fn fingerprint(&mut self) -> Option<u64> {
+        fingerprint(&[self.h.bytes()])
+    }
 }
 
 // ------------------------------------------------------------------------------------------------
@@ -609,6 +628,9 @@ impl<Q: IdxQueueLike, H: Holder<Q>> Real for IdxQueueReal<Q, H> {
     fn relocate(&mut self) -> bool {
         self.h.relocate()
     }
+    fn fingerprint(&mut self) -> Option<u64> {
+        fingerprint(&[self.h.bytes()])
+    }
 }
 
 // ------------------------------------------------------------------------------------------------
@@ -669,6 +691,9 @@ impl<S: IdxSetLike, H: Holder<S>> Real for IdxSetReal<S, H> {
     }
     fn relocate(&mut self) -> bool {
         self.h.relocate()
+    }
+    fn fingerprint(&mut self) -> Option<u64> {
+        fingerprint(&[self.h.bytes()])
     }
 }
 
@@ -735,6 +760,9 @@ impl<S: BitSetLike, H: Holder<S>> Real for BitSetReal<S, H> {
     fn relocate(&mut self) -> bool {
         self.h.relocate()
     }
+    fn fingerprint(&mut self) -> Option<u64> {
+        fingerprint(&[self.h.bytes()])
+    }
 }
 
 // ------------------------------------------------------------------------------------------------
@@ -791,7 +819,7 @@ fn make_inner(kind: &str, flavour: &str, cap: usize, in_block: bool) -> Result<B
     macro_rules! hold {
         // a self-contained value: plain or moved into a block
         ($ctor:ident, $val:expr) => {
-            if in_block { boxed($ctor { h: InBlock::new_inline($val), _p: PhantomData }) } else { boxed($ctor { h: Own($val), _p: PhantomData }) }
+            if in_block { boxed($ctor { h: InBlock::new_inline($val), _p: PhantomData }) } else { boxed($ctor { h: OwnInline($val), _p: PhantomData }) }
         };
     }
     match (kind, flavour) {
@@ -811,7 +839,7 @@ fn make_inner(kind: &str, flavour: &str, cap: usize, in_block: bool) -> Result<B
                 if in_block {
                     boxed(QueueReal { t: InBlock::new_inline(FixedSizeQueue::<Tok, $n>::new()), c: InBlock::new_inline(FixedSizeQueue::<u32, $n>::new()), _p: PhantomData })
                 } else {
-                    boxed(QueueReal { t: Own(FixedSizeQueue::<Tok, $n>::new()), c: Own(FixedSizeQueue::<u32, $n>::new()), _p: PhantomData })
+                    boxed(QueueReal { t: OwnInline(FixedSizeQueue::<Tok, $n>::new()), c: OwnInline(FixedSizeQueue::<u32, $n>::new()), _p: PhantomData })
                 }
             }; }
             by_cap!(cap, m)
@@ -833,7 +861,7 @@ fn make_inner(kind: &str, flavour: &str, cap: usize, in_block: bool) -> Result<B
         ("flatmap", "inline") => {
             macro_rules! m { ($n:literal) => {
                 if in_block { boxed(FlatReal { h: InBlock::new_inline(FixedSizeFlatMap::<u8, Tok, $n>::new()), cap, _p: PhantomData }) }
-                else { boxed(FlatReal { h: Own(FixedSizeFlatMap::<u8, Tok, $n>::new()), cap, _p: PhantomData }) }
+                else { boxed(FlatReal { h: OwnInline(FixedSizeFlatMap::<u8, Tok, $n>::new()), cap, _p: PhantomData }) }
             }; }
             by_cap!(cap, m)
         }
